@@ -80,7 +80,17 @@ def builtin_glue(needs_module: str) -> Callable[[InstallGlueFn], InstallGlueFn]:
     def decorate(fn: InstallGlueFn) -> InstallGlueFn:
         assert needs_module not in builtin_glue_pending
         if needs_module in sys.modules and "sphinx" not in sys.modules:
-            fn()
+            # Already imported, so there won't be a later opportunity to notice it;
+            # install now, unless the module brings its own glue (which will run
+            # on the first extraction and takes precedence over ours)
+            try:
+                has_own_glue = (
+                    "_stackscope_install_glue_" in sys.modules[needs_module].__dict__
+                )
+            except Exception:
+                has_own_glue = False
+            if not has_own_glue:
+                fn()
         else:
             builtin_glue_pending[needs_module] = fn
         return fn
